@@ -38,6 +38,13 @@ the results scaled — over exact fields for every `c ≠ 0` and under every rou
 over floating-point fields" seen from the side of the singularity test: a well-conditioned matrix is not declared
 singular because its entries are small (or large).
 
+Part 6 (round four — the tie): the hand-written LU / DiagonalMatrix model is the loop skeleton instantiated with the
+kernels, loop headers, conditions and call flags that `tr_c02.py` re-reads from `densematrix.hh` / `diagonalmatrix.hh` on
+every run (`tie_*`).
+
+Part 7 (round four — histories and consistency): `invert_sound`; `A.invert(); A.invert();` restores A; `solve` = `invert`·b;
+the pivoting mode does not change the solution; `det(B)·det(A) = 1`; DiagonalMatrix agrees with the dense matrix `diag(d)`.
+
 "solve and determinant never modify A or b": the model is purely functional (inputs cannot change); for the real
 code this clause is checked by the harness (operands compared before/after every call).
 -/
